@@ -1,10 +1,10 @@
 SPECIFICATION Spec
 CONSTANTS
-  NPar = 3
-  MaxCalls = 2
+  NPar = 2
+  MaxCalls = 3
   DumpOn = FALSE
   WithScalar = FALSE
-  WithRandom = FALSE
+  WithRandom = TRUE
 INVARIANT BoundToName
 INVARIANT NeverHalfBound
 INVARIANT RandomIffDistribution
